@@ -1900,7 +1900,8 @@ pub fn raw_case(rng: &mut Rng, pool: &[String], out: &mut CaseOut) {
         }
         let ended = h0.task.is_finished();
         if !aborted && r.is_ok() && ended && !injected {
-            log.lock().unwrap().problems.push(("task-ended-by-itself".into(), "the RemoteTask ended although every frame it received was a valid envelope".into(), json!({"close": log.lock().unwrap().peer_closed})));
+            let close = log.lock().unwrap().peer_closed.clone();
+            log.lock().unwrap().problems.push(("task-ended-by-itself".into(), "the RemoteTask ended although every frame it received was a valid envelope".into(), json!({"close": close})));
         }
         h0.stop.trigger();
         match tokio::time::timeout(Duration::from_secs(60), h0.task).await {
